@@ -1,6 +1,7 @@
 import GopatchModel.Sexp
 import GopatchModel.Cli
 import GopatchModel.Generated
+import GopatchModel.Walk
 open Gopatch
 
 def errStr : Err → String
@@ -71,11 +72,29 @@ def handleGenerated (id : String) (xs : List Sx) : String :=
     | cs => some (cs.filterMap decodeCmt)
   s!"(res {id} {if checkGenerated groups doc then 1 else 0})"
 
+partial def decodeFs : Sx → (String × FsNode)
+  | .list (.atom "d" :: n :: es) => (n.asStr, .dir (es.map decodeFs))
+  | .list [.atom "f", n] => (n.asStr, .file)
+  | .list [.atom "l", n] => (n.asStr, .symlink)
+  | .list [.atom "o", n] => (n.asStr, .other)
+  | _ => ("?", .other)
+
+def handleWalk (id : String) (xs : List Sx) : String :=
+  let cwd := (Sx.field xs "cwd").map Sx.asStr
+  let args := (Sx.field xs "args").map Sx.asStr
+  let root := match Sx.field xs "tree" with
+    | [t] => (decodeFs t).2
+    | _ => .dir []
+  match processed root cwd args with
+  | none => s!"(res {id} (error))"
+  | some fs => s!"(res {id} (files{String.join (fs.map (fun f => " " ++ q f))}))"
+
 def handleLine (line : String) : String :=
   match Sx.ofString line with
   | .list (.atom "case" :: id :: .atom "engine" :: xs) => handleEngine id.asStr xs
   | .list (.atom "case" :: id :: .atom "cli" :: xs) => handleCli id.asStr xs
   | .list (.atom "case" :: id :: .atom "generated" :: xs) => handleGenerated id.asStr xs
+  | .list (.atom "case" :: id :: .atom "walk" :: xs) => handleWalk id.asStr xs
   | .list (.atom "echo" :: [v]) => canonV (decodeV v)
   | _ => "(bad-op)"
 
